@@ -1015,6 +1015,13 @@ func stoppedBeforeStart(prop string, v *View, obs *ref.Facts) []Violation {
 	}
 	at := map[string]int64{} // "step.stage.output" -> simulated time of production
 	for _, e := range v.Events {
+		if e.Kind == world.EvExecStart && !e.Probe {
+			// (the engine reports starting.started before it asks the plugin to start: not later than this)
+			_, id := stepOfSrc(v.C.Program, e.Src)
+			if _, ok := at[id+".starting.started"]; !ok {
+				at[id+".starting.started"] = e.AtUS
+			}
+		}
 		if e.Kind == world.EvExecEnd && !e.Probe {
 			_, id := stepOfSrc(v.C.Program, e.Src)
 			if o, _ := e.Data["output"].(string); o != "" {
